@@ -79,7 +79,8 @@ let show_event = function
   | EWoke (id, n, w) -> Printf.sprintf "CBV woke %d now=%d wake=%d" (int_of_nat id) (int_of_z n) (int_of_z w)
   | EOut v -> Printf.sprintf "P %d" (int_of_z v)
 
-let cap = 30000
+let cap = 300000        (* no halt within this many machine steps = livelock *)
+let print_cap = 30000   (* events are printed for the first print_cap steps only *)
 
 let signature s =
   let q = String.concat "," (List.map (fun i -> string_of_int (int_of_nat i)) (queue s)) in
@@ -128,7 +129,7 @@ let () =
           end
         end;
         let (s', evs) = cstep funs stepms !s in
-        if mode = "trace" then List.iter (fun e -> print_endline (show_event e)) evs;
+        if mode = "trace" && !n < print_cap then List.iter (fun e -> print_endline (show_event e)) evs;
         s := s'; incr n
       done;
       incr ncases; nsteps := !nsteps + !n;
